@@ -16,7 +16,7 @@ class C07(Prop):
     case_type = "PoisExc.gcase"
     verdict = "PoisExc.gverdict"
     shard = 15
-    rule = ("well-scaled systems as in C04 with non-negative A (1-4 receptors x 1-6 sources), finite bounds, targets >= 0, baseline zero and non-zero, K none/scalar/vector, "
+    rule = ("well-scaled systems as in C04 with non-negative A (1-4 receptors x 1-6 sources), finite bounds, targets >= 0, baseline zero and non-zero, K none/scalar/vector, Poisson cases with per-receptor importance weights and fitted as one row of a 2-5 row batch with batch_size in {1, 2, n, n+2}, "
             "in- and out-of-gamut targets; model='poisson' (tight CLARABEL settings and defaults) and model='excitation' (default SCS bisection); in-gamut targets are also "
             "fitted with model='gaussian' and all three must reproduce the target. non-trivial = out-of-gamut target or non-zero baseline")
     assumptions = ["solvers opaque: Poisson optimality through the rational Frank-Wolfe gap at the returned point (clipped into the box by <= 1e-6), excitation optimality through a "
@@ -39,18 +39,36 @@ class C07(Prop):
             kind, b, x = got
             model = rng.choice(["poisson", "poisson", "excitation"])
             acc = rng.choice(["default", "high"]) if model == "poisson" else "default"
+            # Poisson: per-receptor importance weights (the documented objective is the WEIGHTED likelihood) and the target fitted as one row of a batch
+            w = [1.0] * sys["m"]; extra = []; bs = 1; row = 0
+            if model == "poisson":
+                if rng.random() < 0.4:
+                    w = [rng.randint(2, 8) / 4 for _ in range(sys["m"])]
+                if rng.random() < 0.5:
+                    for _ in range(rng.randint(1, 4)):
+                        g2 = gs.gen_target_regime(rng, sys, rng.choice(["inside", "outside", "far"]))
+                        if g2 is not None:
+                            extra.append(np.asarray(g2[1]).tolist())
+                    if extra:
+                        bs = rng.choice([1, 2, len(extra) + 1, len(extra) + 3]); row = rng.randint(0, len(extra))
             cases.append({"sys": {k: (v.tolist() if isinstance(v, np.ndarray) else v) for k, v in sys.items()}, "b": np.asarray(b).tolist(), "tk": kind,
-                          "model": model, "acc": acc, "kind": "%s/%s/base-%s/K-%s/%s" % (model, kind, sys["bkind"], sys["Kkind"], acc)})
+                          "model": model, "acc": acc, "w": w, "extra": extra, "bs": bs, "row": row,
+                          "kind": "%s/%s/base-%s/K-%s/%s%s%s" % (model, kind, sys["bkind"], sys["Kkind"], acc, "/w" if any(v != 1.0 for v in w) else "", "/bs%d" % bs if extra else "")})
         return cases
 
     def run_impl(self, case):
         sys = C04.sysnp(case)
-        est = gs.make_estimator(sys)
-        B = np.asarray(case["b"])[None]
+        w = np.asarray(case.get("w", [1.0] * sys["m"]), dtype=float)
+        est = gs.make_estimator(sys, w=w) if np.any(w != 1.0) else gs.make_estimator(sys)
+        extra = case.get("extra", []); row = case.get("row", 0)
+        rows = [list(e) for e in extra]; rows.insert(row, list(case["b"]))
+        B = np.asarray(rows, dtype=float)
         kw = dict(HI) if case["acc"] == "high" else ({"solver": "CLARABEL"} if case["model"] == "poisson" else {})
+        if extra:
+            kw["batch_size"] = case["bs"]
         X, Bp = est.fit(B, model=case["model"], **kw)
-        out = {"X": np.asarray(X, dtype=float)[0].tolist(), "Bpred": np.asarray(Bp, dtype=float)[0].tolist()}
-        Xg, Bg = est.fit(B, model="gaussian", **HI)
+        out = {"X": np.asarray(X, dtype=float)[row].tolist(), "Bpred": np.asarray(Bp, dtype=float)[row].tolist()}
+        Xg, Bg = est.fit(np.asarray(case["b"])[None], model="gaussian", **HI)
         out["Bpred_gaussian"] = np.asarray(Bg, dtype=float)[0].tolist()
         return out
 
@@ -67,6 +85,22 @@ class C07(Prop):
         if "X" in out:
             x = np.clip(np.asarray(out["X"], dtype=float), sys["lb"], sys["ub"])
             p["xclip"] = x
+            if case["model"] == "poisson":
+                # reference point (untrusted): an accurate minimiser of the weighted likelihood; the certificate is tangent(x -> x0) + gap(x0)
+                import cvxpy as cp
+                wv = np.asarray(case.get("w", [1.0] * m), dtype=float)
+                z = cp.Variable(sys["n"]); pz = Ap @ z + bp
+                x0 = x; ref = None
+                try:
+                    pr = cp.Problem(cp.Minimize(cp.sum(cp.multiply(wv, pz - cp.multiply(b, cp.log(pz))))), [z >= sys["lb"], z <= sys["ub"]])
+                    pr.solve(solver="CLARABEL", tol_gap_abs=1e-11, tol_gap_rel=1e-11, tol_feas=1e-11)
+                    if pr.status in ("optimal", "optimal_inaccurate") and z.value is not None:
+                        cand = np.clip(np.asarray(z.value, dtype=float), sys["lb"], sys["ub"])
+                        if np.all(Ap @ cand + bp > 0):
+                            x0 = cand; ref = float(pr.value)
+                except Exception:  # noqa
+                    pass
+                p["x0"] = x0; p["ref"] = ref; p["wv"] = wv
             if case["model"] == "excitation":
                 pred = Ap @ x + bp
                 t = float(np.max(np.abs(b / (1 + b) - pred / (1 + pred))))
@@ -91,11 +125,11 @@ class C07(Prop):
             raise ValueError("raised %s: %s" % (out["error"], out.get("msg")))
         p = self.prep(case, out); sys = p["sys"]; m = sys["m"]
         common = "%s %s %s" % (kmat_lit(sys["K"], m), qm(sys["A"].tolist()), cnat(sys["n"]))
-        base = qv(base_vec(sys["baseline"], m).tolist()); w = qv([1.0] * m)
+        base = qv(base_vec(sys["baseline"], m).tolist()); w = qv(case.get("w", [1.0] * m))
         if case["model"] == "poisson":
             eps = 1e-3 if case["acc"] == "high" else 2e-2
-            return "(PoisExc.GPo (PoisExc.Build_pcase %s %s %s %s %s %s %s %s %s %s %s %s %s))" % (
-                common, qv(sys["lb"].tolist()), qv(sys["ub"].tolist()), base, w, qv(case["b"]), qv(p["xclip"].tolist()), qv(out["X"]), qv(out["Bpred"]),
+            return "(PoisExc.GPo (PoisExc.Build_pcase %s %s %s %s %s %s %s %s %s %s %s %s %s %s))" % (
+                common, qv(sys["lb"].tolist()), qv(sys["ub"].tolist()), base, w, qv(case["b"]), qv(p["xclip"].tolist()), qv(p["x0"].tolist()), qv(out["X"]), qv(out["Bpred"]),
                 cbool(p["in_gamut"]), q(eps), q(1e-5 if case["acc"] == "high" else 1e-2 * float(np.min(sys["ub"] - sys["lb"]))), q(2e-2))
         return "(PoisExc.GEx (PoisExc.Build_ecase %s %s %s %s %s %s %s %s %s %s %s %s %s %s))" % (
             common, obounds(sys["lb"]), obounds(sys["ub"]), base, w, qv(case["b"]), qv(p["xclip"].tolist()), qv(out["X"]), qv(out["Bpred"]),
@@ -120,15 +154,11 @@ class C07(Prop):
                     return {"what": "in-gamut target not reproduced by model=%r: max |B_pred - b| = %.4g" % (name, d), "class": "in-gamut-not-reproduced:%s" % cfg}
         z = cp.Variable(sys["n"]); pz = p["Ap"] @ z + p["bp"]
         if case["model"] == "poisson":
-            pr = cp.Problem(cp.Minimize(cp.sum(pz - cp.multiply(b, cp.log(pz)))), [z >= sys["lb"], z <= sys["ub"]])
-            try:
-                pr.solve(solver="CLARABEL", tol_gap_abs=1e-10, tol_gap_rel=1e-10, tol_feas=1e-10)
-            except Exception:  # noqa
-                return None
-            mine = float(np.sum(pred - b * np.log(pred)))
+            wv = p["wv"]
+            mine = float(np.sum(wv * (pred - b * np.log(pred))))
             eps = 1e-3 if case["acc"] == "high" else 2e-2
-            if pr.status in ("optimal", "optimal_inaccurate") and mine > pr.value + eps:
-                return {"what": "Poisson negative log-likelihood %.9g, but in-bound %s achieves %.9g" % (mine, np.asarray(z.value).round(5).tolist(), pr.value), "class": "poisson-suboptimal:" + cfg}
+            if p["ref"] is not None and mine > p["ref"] + eps:
+                return {"what": "weighted Poisson negative log-likelihood %.9g, but in-bound %s achieves %.9g" % (mine, p["x0"].round(5).tolist(), p["ref"]), "class": "poisson-suboptimal:" + cfg}
         else:
             t = float(np.max(np.abs(b / (1 + b) - pred / (1 + pred))))
             lo, hi = 0.0, t
